@@ -9,6 +9,13 @@ def repo_commits(prefix):
     return [l.split()[0] for l in out.splitlines() if l.split(" ", 1)[1].startswith(prefix)]
 
 CLAIMS = {
+    "C09": dict(
+        level="exploration",
+        technique="differential property-based testing: the same generated audio, settings and command history played as a static sound and as two streaming sounds over scripted decoders (different packet splits / seek behaviour), compared bit-for-bit in lock-step",
+        text="Each case runs three implementations side by side on identical process() calls and compares output frames bit-for-bit, playback states after every chunk and reported positions within one frame; the second streaming sound differs only in packet sizes and seek granularity, which must not change a single sample. The decoder threads are real; the harness owns their schedule at decoder-step / callback granularity through hook H2 so that 'the decoder keeps ahead' holds deterministically. Random search with shrinking, including streams longer than the 16384-frame ring.",
+        note="Sounds are driven directly with MockInfoBuilder. No seeks (as the property says). Playback speed x chunk size is kept below the ring size, otherwise no decoder can keep ahead.",
+        design="5/C09",
+    ),
     "C06": dict(
         level="exploration",
         technique="stateful property-based testing of kira::Parameter<T> and the tweener modulator against an independent tween model (own easing curves, exact start localisation) over generated set()/update() histories",
